@@ -262,9 +262,9 @@ func c12Class(in Fields) string {
 		return "bad"
 	}
 	kind := "random"
-	if len(c.nicks) == 3 {
+	if len(c.nicks) == 4 {
 		kind = "closure"
-	} else if len(c.nicks) == 4 {
+	} else if len(c.nicks) == 6 {
 		kind = "scenario"
 	}
 	n := len(c.ops)
@@ -288,7 +288,7 @@ func c12O(code string, args ...string) c12Op { return c12Op{code, args} }
 // then re-create, wipe with shared nicks, ...); universe of 4 nick names marks the class
 func c12Scenarios() []*c12Case {
 	u := func(ops ...c12Op) *c12Case {
-		return &c12Case{me: "me", nicks: []string{"", "me", "al", "bo"}, chans: []string{"", "#x", "#y"}, ops: ops}
+		return &c12Case{me: "me", nicks: []string{"", "me", "al", "bo", "bob", "Bob"}, chans: []string{"", "#x", "#y", "#X"}, ops: ops}
 	}
 	return []*c12Case{
 		u(c12O("NC", "#x"), c12O("AS", "#x", "me"), c12O("NN", "al"), c12O("AS", "#x", "al"), c12O("CM", "#x", "+o", "al"),
@@ -312,14 +312,23 @@ func c12Scenarios() []*c12Case {
 			c12O("CM", "#x", "+b"), c12O("CM", "#x", "-o+bv", "al", "al", "al"), c12O("CM", "#x", "+bk", "mask", "key"),
 			c12O("CM", "#x", "+kbl", "k2", "mask", "7"), c12O("CM", "#x", "-bo", "me"), c12O("CM", "#x", "+Ibeq", "a", "b", "c", "me"),
 			c12O("CM", "#x", "+ob", "al"), c12O("CM", "#x", "-eIbv", "x", "y", "z", "al"), c12O("CM", "#x", "+bv", "bo", "me")),
+		// case variants: rename between them, privilege changes naming a variant of a member,
+		// re-creation of a freed name in another case, channels differing in case only
+		u(c12O("NC", "#x"), c12O("AS", "#x", "me"), c12O("NN", "bob"), c12O("AS", "#x", "bob"), c12O("RN", "bob", "Bob"),
+			c12O("CM", "#x", "+o", "Bob"), c12O("CM", "#x", "+v", "bob"), c12O("RN", "Bob", "al"), c12O("CM", "#x", "+v", "bob"),
+			c12O("CM", "#x", "+h", "Bob"), c12O("DI", "#x", "al"), c12O("CM", "#x", "+o", "bob"), c12O("NN", "Bob"),
+			c12O("AS", "#x", "Bob"), c12O("NN", "bob"), c12O("AS", "#x", "bob"), c12O("CM", "#x", "+ov", "bob", "Bob"),
+			c12O("NC", "#X"), c12O("AS", "#X", "me"), c12O("AS", "#X", "bob"), c12O("CM", "#X", "+q", "Bob"), c12O("DC", "#x"),
+			c12O("GN", "bob"), c12O("GN", "Bob"), c12O("RN", "me", "Bob"), c12O("RN", "me", "bo"), c12O("ME")),
 	}
 }
 
 // (i) closure: breadth-first over the states reachable in the small universe; every
 // transition is executed on a fresh tracker by replaying the shortest path to its source.
 func c12Closure(limit int, emit func(Fields)) (states int, closed bool) {
-	nicks := []string{"", "a", "b"}
-	chans := []string{"", "#x", "#y"}
+	// names are exact byte strings for the tracker: "a"/"A" and "#x"/"#X" are different names
+	nicks := []string{"", "a", "A", "b"}
+	chans := []string{"", "#x", "#X"}
 	var alphabet []c12Op
 	for _, n := range nicks {
 		alphabet = append(alphabet, c12O("NN", n), c12O("DN", n))
@@ -365,8 +374,9 @@ func c12Closure(limit int, emit func(Fields)) (states int, closed bool) {
 	return states, true
 }
 
-var c12Nicks = []string{"", "me", "al", "bo", "cy", "di"}
-var c12Chans = []string{"", "#x", "#y", "#z"}
+// case variants of the same letters are DIFFERENT names (the tracker compares byte strings)
+var c12Nicks = []string{"", "me", "Me", "al", "bob", "Bob", "BOB"}
+var c12Chans = []string{"", "#x", "#X", "#y"}
 
 // a mode string and its arguments from a grammar; [isOn] answers membership on the channel
 // the string will be applied to.  Where the property leaves the consumption of arguments
